@@ -103,6 +103,12 @@ def check_pipeline(rep, funcs, mapname):
     fn = funcs['clean']
     num = fn.args.args[0].arg
     dele = fn.args.args[1].arg if len(fn.args.args) > 1 else None
+    # called without a second argument nothing is deleted: the callers that write clean(number) rely on it
+    if dele and fn.args.defaults:
+        d0 = fn.args.defaults[-1]
+        rep.check(isinstance(d0, ast.Constant) and d0.value == '', 'TAB.default-deletes-nothing', FILE, 'clean', '%s=%s' % (dele, src(d0)), fn.lineno,
+                  'clean() called without %s deletes %s: the default must be the empty string, callers of clean(number) expect only the look-alike mapping'
+                  % (dele, src(d0)), what='clean(number, %s=\'\')' % dele)
     stage = 'raw'
     body = strip_doc(fn.body)
     returned = False
